@@ -56,6 +56,7 @@ type Obligation struct {
 	Solver string
 	TimeMs int64
 	Model  string
+	Static bool   // decided without a solver (syntactic check); Result is preset
 	Excl   string // known-finding exclusion (SMT term) if any
 	KF     *KnownFinding
 	ExclOK bool // proved only under the exclusion
@@ -73,6 +74,7 @@ type FnCtx struct {
 	gens       []genInfo
 	genSyms    map[string]bool
 	kindCnt    map[string]int
+	panicPts   []panicPoint
 	skipCnt    int
 	abstr      []string          // abstractions applied (unsupported constructs replaced by unconstrained values)
 	errs       []string          // hard errors (contract could not be applied)
@@ -251,6 +253,10 @@ func (c *FnCtx) heapGet(s *State, key string) string {
 	if v, ok := s.heap[key]; ok {
 		return v
 	}
+	if c.eng.finalKeys[key] {
+		// a final field is never written after construction: one symbol for every generation
+		return c.genSym(0, key)
+	}
 	return c.genSym(s.gen, key)
 }
 
@@ -275,7 +281,7 @@ func isLocalKey(k string) bool {
 // havocAll forgets everything about the shared heap (unknown callee effects).
 func (c *FnCtx) havocAll(s *State) {
 	for k := range s.heap {
-		if !isLocalKey(k) && !strings.HasPrefix(k, "ghostfix:") {
+		if !isLocalKey(k) && !strings.HasPrefix(k, "ghostfix:") && !c.eng.finalKeys[k] {
 			delete(s.heap, k)
 		}
 	}
@@ -405,4 +411,13 @@ type KnownFinding struct {
 	Status     string `json:"status"`    // "open" or "fixed"
 	FixCommit  string `json:"fix_commit,omitempty"`
 	ReplayTest string `json:"replay_test,omitempty"`
+}
+
+// panicPoint: a call in the function under verification that may panic (ensures_always).
+type panicPoint struct {
+	st     *State
+	blk    *ssa.BasicBlock
+	pos    token.Pos
+	callee string
+	fc     *FuncContract
 }
